@@ -21,7 +21,8 @@ import (
 // sequences applied one operation at a time to a plain slice (brute force over all interleavings).
 
 type ROp struct {
-	K    string   `json:"k"` // addFirst addLast remove removeFirst removeLast filter getFirst length
+	K    string   `json:"k"` // addFirst addLast addAfter addBefore remove removeFirst removeLast filter getFirst length
+	Ref  string   `json:"ref,omitempty"`
 	ID   string   `json:"id,omitempty"`
 	Keep []string `json:"keep,omitempty"`
 }
@@ -42,12 +43,19 @@ func genRacing(t *rapid.T) RCase {
 	genSeq := func(label string) []ROp {
 		var out []ROp
 		for i, m := 0, rapid.IntRange(1, 4).Draw(t, label+"n"); i < m; i++ {
-			k := rapid.SampledFrom([]string{"addFirst", "addLast", "addLast", "remove", "removeFirst", "removeLast", "filter", "filter", "getFirst", "length"}).Draw(t, label+"k")
+			k := rapid.SampledFrom([]string{"addFirst", "addLast", "addLast", "addAfter", "addBefore", "remove", "removeFirst", "removeLast", "filter", "filter", "getFirst", "length"}).Draw(t, label+"k")
 			op := ROp{K: k}
 			switch k {
 			case "addFirst", "addLast":
 				fresh++
 				op.ID = fmt.Sprintf("%s%d", label, fresh)
+			case "addAfter", "addBefore":
+				fresh++
+				op.ID = fmt.Sprintf("%s%d", label, fresh)
+				op.Ref = "absent"
+				if len(c.Initial) > 0 {
+					op.Ref = rapid.SampledFrom(c.Initial).Draw(t, label+"ref")
+				}
 			case "remove":
 				if len(c.Initial) > 0 {
 					op.ID = rapid.SampledFrom(c.Initial).Draw(t, label+"ref")
@@ -77,6 +85,20 @@ func applyModel(list []string, op ROp) ([]string, string) {
 		return append([]string{op.ID}, list...), ""
 	case "addLast":
 		return append(append([]string{}, list...), op.ID), ""
+	case "addAfter", "addBefore":
+		for i, x := range list {
+			if x == op.Ref {
+				at := i
+				if op.K == "addAfter" {
+					at = i + 1
+				}
+				out := append([]string{}, list[:at]...)
+				out = append(out, op.ID)
+				return append(out, list[at:]...), ""
+			}
+		}
+		// the addressed task is gone: see applyModelAll
+		return list, ""
 	case "remove":
 		for i, x := range list {
 			if x == op.ID {
@@ -114,6 +136,23 @@ func applyModel(list []string, op ROp) ([]string, string) {
 	return list, ""
 }
 
+// applyModelAll lists every outcome the statement allows for one operation: an insertion relative to a task
+// that is not in the queue may be dropped or appended.
+func applyModelAll(list []string, op ROp) [][2]any {
+	nl, r := applyModel(list, op)
+	out := [][2]any{{nl, r}}
+	if op.K == "addAfter" || op.K == "addBefore" {
+		found := false
+		for _, x := range list {
+			found = found || x == op.Ref
+		}
+		if !found {
+			out = append(out, [2]any{append(append([]string{}, list...), op.ID), ""})
+		}
+	}
+	return out
+}
+
 func keepID(op ROp, id string) bool {
 	if !strings.HasPrefix(id, "i") {
 		return true // added during the run
@@ -139,6 +178,10 @@ func applyReal(q *queue.TaskQueue, op ROp) string {
 		q.AddFirst(qh.NewTask(op.ID))
 	case "addLast":
 		q.AddLast(qh.NewTask(op.ID))
+	case "addAfter":
+		q.AddAfter(op.Ref, qh.NewTask(op.ID))
+	case "addBefore":
+		q.AddBefore(op.Ref, qh.NewTask(op.ID))
 	case "remove":
 		return idOf(q.Remove(op.ID))
 	case "removeFirst":
@@ -195,13 +238,17 @@ func runRacing(c RCase) (ev.Info, error) {
 			return fmt.Sprint(list) == fmt.Sprint(final)
 		}
 		if i < len(c.A) {
-			if nl, r := applyModel(list, c.A[i]); r == retA[i] && explain(nl, i+1, j) {
-				return true
+			for _, o := range applyModelAll(list, c.A[i]) {
+				if o[1].(string) == retA[i] && explain(o[0].([]string), i+1, j) {
+					return true
+				}
 			}
 		}
 		if j < len(c.B) {
-			if nl, r := applyModel(list, c.B[j]); r == retB[j] && explain(nl, i, j+1) {
-				return true
+			for _, o := range applyModelAll(list, c.B[j]) {
+				if o[1].(string) == retB[j] && explain(o[0].([]string), i, j+1) {
+					return true
+				}
 			}
 		}
 		return false
@@ -229,7 +276,7 @@ func runRacing(c RCase) (ev.Info, error) {
 	return info, nil
 }
 
-const ruleRacing = "two goroutines apply 1-4 operations each (addFirst/addLast/remove/removeFirst/removeLast/filter/getFirst/length, unique ids) to one TaskQueue at the same time (real threads, sampled; the filter predicate takes ~30us per task so that the other goroutine's operations arrive during it); oracle: the final content and every returned value are explained by some interleaving of the two sequences on a plain slice (all interleavings enumerated) - every list operation is atomic. Non-trivial: a filter in one sequence and a mutating operation in the other."
+const ruleRacing = "two goroutines apply 1-4 operations each (addFirst/addLast/addAfter/addBefore/remove/removeFirst/removeLast/filter/getFirst/length, unique ids) to one TaskQueue at the same time (real threads, sampled; the filter predicate takes ~30us per task so that the other goroutine's operations arrive during it); oracle: the final content and every returned value are explained by some interleaving of the two sequences on a plain slice (all interleavings enumerated) - every list operation is atomic. Non-trivial: a filter in one sequence and a mutating operation in the other."
 
 func TestRacing(t *testing.T) {
 	ev.Main(t, ev.Spec[RCase]{Property: "C05", Part: "racing", Rule: ruleRacing, Gen: genRacing, Run: runRacing, Journal: true})
